@@ -441,6 +441,20 @@ def run_case(ctx, i, rng):
             n.top_instance.reference.create_child("graft_user", reference=g) if g.library is not None and rng.random() < 0.5 and \
                 g.library is n.top_instance.reference.library else None
             ctx.count("netlists_with_a_definition_grafted_from_the_other_policy")
+    # a history of REFUSED renames (a sibling's name is taken): the netlist is the same afterwards - also as the comparer's
+    # second argument, where names are resolved by lookup
+    refused = 0
+    for d_ in defs_of(n):
+        for sibs in (list(d_.cables), list(d_.children), list(d_.ports)):
+            named = [x for x in sibs if x.name]
+            if len(named) >= 2 and rng.random() < 0.4:
+                x, y = rng.sample(named, 2)
+                try:
+                    x.name = y.name
+                    x.name = x.name + "_undo"       # accepted after all (should not happen): keep the netlist as it is
+                except ValueError:
+                    refused += 1
+    ctx.count("refused_renames_in_history", refused)
     st = gen_ir.shape_stats(n)
     me = sys.modules[__name__]
     c0 = canon.canon_netlist(n)
